@@ -22,6 +22,15 @@
 //     layout, HTLC sets, resolutions with well-formed placeholder scripts / keys /
 //     control blocks; for legacy channels the utxo nursery (durable store, acts
 //     while the node is up);
+//   - (axis audit) the chain backend's mempool watcher (only in the */mempool
+//     scenarios; it tells a subscription about transactions that enter the mempool
+//     after the subscription was made), a notifier that honours the height hint of
+//     a spend registration, the invoice registry for exit-hop HTLCs (durable state:
+//     every accept / settle / cancel is a write transaction of channel.db and hence
+//     a stop point; replays are answered like lnd's registry), per-HTLC onion
+//     payloads, the upstream expiry of forwarded HTLCs, and the user who asks for a
+//     force close through the real ChainArbitrator.ForceCloseContract and repeats
+//     the request after a restart while the arbitrator is still in StateDefault;
 //   - "ChainArbitrator": startNode() builds the arbitrator exactly as
 //     newActiveChannelArbitrator / loadPendingCloseChannels do (open channel: HTLC
 //     sets, Channel, chain events; pending close: IsPendingClose, CloseType,
@@ -48,12 +57,14 @@
 // dependency (refuse).
 //
 // Unexported identifiers relied on: newBoltArbitratorLog, htlcSet/newHtlcSet (the
-// parameter type of the exported NewChannelArbitrator), and the package's test
-// fixture mockOnionProcessor. Resolver internals are only read through fmt "%T" and
+// parameter type of the exported NewChannelArbitrator), ChainArbitrator.activeChannels
+// (to register the arbitrator for ForceCloseContract) and the package's test
+// fixture mockOnionProcessor (fields isExit, forwardAmount, outgoingCltv). Resolver internals are only read through fmt "%T" and
 // reflection by field name ("outputIncubating"), which degrade gracefully.
 package contractcourt
 
 import (
+	"bytes"
 	"context"
 	"crypto/sha256"
 	"encoding/binary"
@@ -117,11 +128,24 @@ type c13HTLC struct {
 	Exp  uint32 `json:"exp"`  // absolute expiry
 	// Pre: received HTLC: "known" (preimage in the witness cache from the start),
 	// "late" (arrives when block At is connected), "never".
+	// "late-lost" (arrives when block At is connected, but our claim loses the race:
+	// whatever we publish to spend the HTLC output does not confirm before the
+	// remote party's timeout spend, which is mined in block Exp+1), "underpaid"
+	// (exit hop only: the onion asks for more than the HTLC carries).
 	// offered HTLC: "" (times out) or "claim" (the remote party sweeps the output
-	// with the preimage in block At).
+	// with the preimage in block At; with a mempool watcher the spend is visible
+	// in the mempool while block At-1 is the tip) or "claim-direct" (the same, but
+	// the spend is never relayed: it is first seen in block At).
 	Pre string `json:"pre"`
 	At  int32  `json:"at"`
 	Idx uint64 `json:"idx"` // assigned: offered and received are numbered independently
+	// Inv: received HTLC only. "" = a forward (the onion names a next hop); otherwise
+	// we are the exit hop and the invoice registry decides: "settle" (open invoice
+	// with a known preimage: settled when the HTLC is notified), "canceled" (the
+	// invoice was canceled before the HTLC arrived), "hodl-settle" / "hodl-cancel"
+	// (hold invoice: the HTLC is accepted, the user settles / cancels the invoice
+	// once block At is connected and the node is up).
+	Inv string `json:"inv,omitempty"`
 }
 
 // c13Scn is one close scenario.
@@ -153,6 +177,19 @@ type c13Scn struct {
 	// "legacy" (tweakless, no anchors: second-level HTLCs of our own commitment go
 	// through the utxo nursery).
 	Chan string `json:"chan,omitempty"`
+	// Mempool: the chain backend is a full node with a mempool watcher (btcd /
+	// bitcoind; false: neutrino). Resolvers of offered HTLCs then also learn of
+	// unconfirmed spends of the HTLC output, but only of transactions that enter
+	// the mempool after the subscription (what lnd's mempool notifier delivers).
+	Mempool bool `json:"mempool,omitempty"`
+	// NoUpstream: the offered HTLCs have no incoming circuit (FindOutgoingHTLCDeadline
+	// answers None); otherwise HTLC k is a forward whose incoming HTLC expires at
+	// Exp+20+2k.
+	NoUpstream bool `json:"no_upstream,omitempty"`
+	// UserClose: from this block on the user asks for a force close
+	// (ChainArbitrator.ForceCloseContract -> userTrigger) and keeps asking after a
+	// restart until the arbitrator has left StateDefault. 0: never.
+	UserClose int32 `json:"user_close,omitempty"`
 }
 
 const c13Thaw = 125 // lease expiry (absolute height)
@@ -570,10 +607,11 @@ type c13World struct {
 	verbose bool
 	peerSig input.Signature
 
-	ctrl     []byte           // a well-formed taproot control block
-	delayKey *btcec.PublicKey // our delay base point (taproot: tells our commitment from theirs)
-	payKey   *btcec.PublicKey // our payment base point
-	nursery  []c13Kid         // legacy channels: what was handed to the utxo nursery (durable)
+	ctrl     []byte            // a well-formed taproot control block
+	delayKey *btcec.PublicKey  // our delay base point (taproot: tells our commitment from theirs)
+	payKey   *btcec.PublicKey  // our payment base point
+	nursery  []c13Kid          // legacy channels: what was handed to the utxo nursery (durable)
+	inv      map[uint64]string // invoice registry mirror: received HTLC index -> accepted | settled | canceled (durable)
 
 	stopPrint []string        // survivors() at the stop instant
 	frozen    [3]atomic.Int64 // calls of dead processes that were parked, by kind
@@ -677,6 +715,7 @@ func (w *c13World) survivors() []string {
 		fmt.Sprintf("commits=%d", w.cdb.Commits()),
 		fmt.Sprintf("nursery=%v", w.nursery),
 		fmt.Sprintf("witness-cache=%d", len(w.knownPre)),
+		fmt.Sprintf("invoices=%v", w.inv),
 		fmt.Sprintf("chain=%d spent=%d", len(w.chain), len(w.spent)),
 		fmt.Sprintf("published=%v", w.obs.Published),
 		fmt.Sprintf("offered=%v", w.obs.Offered),
@@ -745,6 +784,7 @@ func newC13World(scn c13Scn, verbose bool) (*c13World, error) {
 		knownPre: map[lntypes.Hash]lntypes.Preimage{},
 		lastSnap: map[string]int{},
 		parkedBy: map[string]int{},
+		inv:      map[uint64]string{},
 		verbose:  verbose,
 	}
 	w.obs = c13Obs{Scn: scn.Name, Msgs: map[string][]string{}, Finals: map[string][]string{}, MaxRank: map[string]int{},
@@ -870,10 +910,21 @@ func (w *c13World) chanHTLC(j int, k string) channeldb.HTLC {
 		HtlcIndex:     h.Idx,
 		LogIndex:      uint64(31 + j),
 	}
+	copy(e.OnionBlob[:], c13OnionBlob(h))
 	if !h.Dust {
 		e.OutputIndex = int32(c13OutHTLC0 + w.scn.slot(k, j))
 	}
 	return e
+}
+
+// c13OnionBlob is the (distinct, non-zero) onion packet of an HTLC.
+func c13OnionBlob(h c13HTLC) []byte {
+	seed := sha256.Sum256([]byte("c13-onion-" + h.name()))
+	out := make([]byte, lnwire.OnionPacketSize)
+	for i := range out {
+		out[i] = seed[i%32] | 1
+	}
+	return out
 }
 
 func (w *c13World) htlcsOn(k string) []channeldb.HTLC {
@@ -1181,13 +1232,51 @@ func (w *c13World) addMempool(tx *wire.MsgTx, minH int32, ours, front bool) {
 			return
 		}
 	}
+	if ours {
+		// A received HTLC whose claim loses the race: nothing we publish to spend its
+		// output confirms before the remote party's timeout spend (block Exp+1).
+		for _, in := range tx.TxIn {
+			if r, ok := w.roles[in.PreviousOutPoint]; ok && r.kind == "htlc" {
+				if ht := w.scn.HTLCs[r.htlc]; ht.In && ht.Pre == "late-lost" && minH < int32(ht.Exp)+2 {
+					minH = int32(ht.Exp) + 2
+				}
+			}
+		}
+	}
 	m := &c13MemTx{tx: tx, minH: minH, ours: ours}
+	w.mempoolNotify(tx)
 	if front {
 		w.mempool = append([]*c13MemTx{m}, w.mempool...)
 	} else {
 		w.mempool = append(w.mempool, m)
 	}
 	w.logf("  mempool += %s (earliest block %d)", w.tagOf(h), minH)
+}
+
+// mempoolNotify queues, for a transaction that just entered the mempool, the
+// notifications of the mempool watcher (full-node backends only) to the live
+// node's subscribers of the outpoints it spends. The world lock is held.
+func (w *c13World) mempoolNotify(tx *wire.MsgTx) {
+	n := w.node
+	if !w.scn.Mempool || n == nil || n.dead.Load() || w.crashed.Load() {
+		return
+	}
+	h := tx.TxHash()
+	for i, in := range tx.TxIn {
+		op := in.PreviousOutPoint
+		for _, sub := range n.memSubs[op] {
+			ch := sub.ch
+			det := &chainntnfs.SpendDetail{SpentOutPoint: &op, SpenderTxHash: &h, SpendingTx: tx.Copy(),
+				SpenderInputIndex: uint32(i), SpendingHeight: 0}
+			name := w.opName(op)
+			n.enqueue("0-mempool:"+name, "mempool spend of "+name+" by "+w.tagOf(h), func() {
+				select {
+				case ch <- det:
+				default:
+				}
+			})
+		}
+	}
 }
 
 // mine connects block h.
@@ -1369,23 +1458,72 @@ func (w *c13World) remoteTxs(h int32) {
 	if closeKind != "" && w.scn.CloseAt == h {
 		w.addMempool(w.commits[closeKind], h, false, true)
 	}
+	w.remoteClaims(h, h, false)
+	// The remote party takes back, through the timeout path, a received HTLC that
+	// we did not manage to claim in time.
 	for j, ht := range w.scn.HTLCs {
-		if ht.In || ht.Pre != "claim" || ht.At != h {
+		if !ht.In || ht.Pre != "late-lost" || int32(ht.Exp)+1 != h {
 			continue
 		}
-		for op, r := range w.roles {
-			if r.kind != "htlc" || r.htlc != j {
+		for _, op := range w.htlcOutpoints(j) {
+			if _, sp := w.spent[op]; sp {
 				continue
 			}
-			if _, ok := w.exists(op); !ok {
-				continue
+			tx := wire.NewMsgTx(2)
+			tx.LockTime = ht.Exp
+			script := c13Script(fmt.Sprintf("%s-htlc-%d", w.roles[op].commit, j), txscript.OP_DUP)
+			// <remote sig> <> <script> (their commitment: second-level timeout
+			// <0> <sig> <sig> <> <script>); taproot: <sig> [<sig>] <script> <ctrl>.
+			wit := wire.TxWitness{c13Sig, {}, script}
+			switch {
+			case w.scn.taproot() && w.roles[op].commit == "local":
+				wit = wire.TxWitness{c13Sig64, script, w.ctrl}
+			case w.scn.taproot():
+				wit = wire.TxWitness{c13Sig64, c13Sig64, script, w.ctrl}
+			case w.roles[op].commit != "local":
+				wit = wire.TxWitness{{}, c13Sig, c13Sig, {}, script}
 			}
+			tx.AddTxIn(&wire.TxIn{PreviousOutPoint: op, Witness: wit})
+			tx.AddTxOut(&wire.TxOut{Value: 1, PkScript: c13P2WSH("remote-wallet")})
+			w.tag(tx, "remote-timeout("+ht.name()+")")
+			w.addMempool(tx, h, false, true)
+		}
+	}
+}
+
+// htlcOutpoints lists the existing (confirmed) commitment outputs of HTLC j in a
+// canonical order.
+func (w *c13World) htlcOutpoints(j int) []wire.OutPoint {
+	var ops []wire.OutPoint
+	for op, r := range w.roles {
+		if r.kind != "htlc" || r.htlc != j {
+			continue
+		}
+		if _, ok := w.exists(op); ok {
+			ops = append(ops, op)
+		}
+	}
+	sort.Slice(ops, func(a, b int) bool { return w.opName(ops[a]) < w.opName(ops[b]) })
+	return ops
+}
+
+// remoteClaims puts the remote party's preimage spends that confirm in block at
+// into the mempool (earliest block minH). relayed: only those that are relayed
+// through our mempool before they confirm ("claim"; a "claim-direct" spend is first
+// seen in the block that confirms it).
+func (w *c13World) remoteClaims(at, minH int32, relayed bool) {
+	for j, ht := range w.scn.HTLCs {
+		if ht.In || !(ht.Pre == "claim" || (ht.Pre == "claim-direct" && !relayed)) || ht.At != at {
+			continue
+		}
+		for _, op := range w.htlcOutpoints(j) {
+			r := w.roles[op]
 			tx := wire.NewMsgTx(2)
 			script := c13Script(fmt.Sprintf("%s-htlc-%d", r.commit, j), txscript.OP_DUP)
 			tx.AddTxIn(&wire.TxIn{PreviousOutPoint: op, Witness: w.witnessFor(op, fn.None[lntypes.Preimage](), script, true)})
 			tx.AddTxOut(&wire.TxOut{Value: 1, PkScript: c13P2WSH("remote-wallet")})
 			w.tag(tx, "remote-claim("+ht.name()+")")
-			w.addMempool(tx, h, false, true)
+			w.addMempool(tx, minH, false, true)
 		}
 	}
 }
@@ -1419,6 +1557,9 @@ type c13Node struct {
 	sweeps     map[wire.OutPoint]*c13SweepReq
 	preSubs    []chan lntypes.Preimage
 	breachSubs []chan struct{}
+	memSubs    map[wire.OutPoint][]*c13MemSub  // mempool watcher subscriptions
+	hodlSubs   map[uint64][]chan<- interface{} // invoice registry: hodl subscribers per received HTLC index
+	chainArb   *ChainArbitrator                // only used for ForceCloseContract
 	resolved   chan struct{}
 	idle       bool // nothing left to run for this channel
 	closedMem  bool
@@ -1511,7 +1652,7 @@ func (x *c13Notifier) RegisterConfirmationsNtfn(*chainhash.Hash, []byte, uint32,
 	return nil, errors.New("c13: confirmation notifications are not modelled")
 }
 
-func (x *c13Notifier) RegisterSpendNtfn(op *wire.OutPoint, _ []byte, _ uint32) (*chainntnfs.SpendEvent, error) {
+func (x *c13Notifier) RegisterSpendNtfn(op *wire.OutPoint, _ []byte, hint uint32) (*chainntnfs.SpendEvent, error) {
 	n := x.n
 	n.enter()
 	defer n.leave()
@@ -1519,6 +1660,13 @@ func (x *c13Notifier) RegisterSpendNtfn(op *wire.OutPoint, _ []byte, _ uint32) (
 	ev := chainntnfs.NewSpendEvent(func() {})
 	name := w.opName(*op)
 	n.ident[c13Goid()] = name
+	if sp, ok := w.spent[*op]; ok && int32(hint) > sp.height {
+		// The historical rescan starts at the height hint: a spend below it is
+		// never found (lnd's notifiers trust the hint).
+		w.logf("    notifier: %s was spent at height %d, below the height hint %d: the rescan misses it", name, sp.height, hint)
+		n.spendRegs[*op] = append(n.spendRegs[*op], ev)
+		return ev, nil
+	}
 	if sp, ok := w.spent[*op]; ok {
 		w.logf("    notifier: %s is already spent on chain (%s): historical dispatch queued", name, w.tagOf(sp.tx.TxHash()))
 		det := w.spendDetail(*op, sp)
@@ -1650,6 +1798,58 @@ func (s *c13Sweeper) UpdateParams(op wire.OutPoint, _ sweep.Params) (chan sweep.
 	return rc, nil
 }
 
+// --- mempool watcher (full-node backends) -----------------------------------------
+
+type c13MemSub struct {
+	ev *chainntnfs.MempoolSpendEvent
+	ch chan *chainntnfs.SpendDetail
+}
+
+// c13Mempool is the chain backend's mempool watcher: a subscription is told about
+// transactions that enter the mempool after it was made.
+type c13Mempool struct{ n *c13Node }
+
+var _ chainntnfs.MempoolWatcher = (*c13Mempool)(nil)
+
+func (m *c13Mempool) SubscribeMempoolSpent(op wire.OutPoint) (*chainntnfs.MempoolSpendEvent, error) {
+	n := m.n
+	n.enter()
+	defer n.leave()
+	ch := make(chan *chainntnfs.SpendDetail, 16)
+	ev := &chainntnfs.MempoolSpendEvent{Spend: ch}
+	n.memSubs[op] = append(n.memSubs[op], &c13MemSub{ev: ev, ch: ch})
+	n.w.logf("    mempool watcher: watching %s", n.w.opName(op))
+	return ev, nil
+}
+
+func (m *c13Mempool) CancelMempoolSpendEvent(ev *chainntnfs.MempoolSpendEvent) {
+	n := m.n
+	n.enter()
+	defer n.leave()
+	for op, subs := range n.memSubs {
+		for i, sub := range subs {
+			if sub.ev == ev {
+				n.memSubs[op] = append(subs[:i:i], subs[i+1:]...)
+				return
+			}
+		}
+	}
+}
+
+func (m *c13Mempool) LookupInputMempoolSpend(op wire.OutPoint) fn.Option[wire.MsgTx] {
+	n := m.n
+	n.enter()
+	defer n.leave()
+	for _, mt := range n.w.mempool {
+		for _, in := range mt.tx.TxIn {
+			if in.PreviousOutPoint == op {
+				return fn.Some(*mt.tx.Copy())
+			}
+		}
+	}
+	return fn.None[wire.MsgTx]()
+}
+
 // --- witness beacon, registry, chain io, channel ------------------------------
 
 type c13Beacon struct{ n *c13Node }
@@ -1759,7 +1959,31 @@ func (o *c13Onion) ReconstructHopIterator(r io.Reader, rHash []byte,
 	copy(ph[:], rHash)
 	o.n.w.checkHash("ReconstructHopIterator", ph)
 	o.n.ident[c13Goid()] = "htlc-" + hex.EncodeToString(rHash[:6])
-	it, err := o.inner.ReconstructHopIterator(r, rHash, bi)
+	inner := o.inner
+	for j, h := range o.n.w.scn.HTLCs {
+		if h.In && h.Inv != "" && c13HashOfPre(h.preimage()) == ph {
+			// We are the exit hop: the onion carries the final amount and CLTV.
+			amt := 10_000_000 * (j + 1)
+			if h.Pre == "underpaid" {
+				amt++
+			}
+			inner = &mockOnionProcessor{isExit: true, forwardAmount: amt, outgoingCltv: h.Exp}
+		}
+	}
+	blob, _ := io.ReadAll(r)
+	for j, h := range o.n.w.scn.HTLCs {
+		if !h.In || c13HashOfPre(h.preimage()) != ph {
+			continue
+		}
+		if bi.IncomingAmt != lnwire.MilliSatoshi(10_000_000*(j+1)) || bi.IncomingExpiry != h.Exp {
+			// The hop payload is reconstructed from the HTLC's own amount and expiry.
+			o.n.w.anomaly(fmt.Sprintf("onion-decoded-with-foreign-htlc-details:%s(amt=%d,expiry=%d)", h.name(), bi.IncomingAmt, bi.IncomingExpiry))
+		}
+		if !bytes.Equal(blob, c13OnionBlob(h)) {
+			o.n.w.anomaly(fmt.Sprintf("onion-decoded-from-foreign-packet:%s", h.name()))
+		}
+	}
+	it, err := inner.ReconstructHopIterator(bytes.NewReader(blob), rHash, bi)
 	o.n.leave()
 	return it, err
 }
@@ -1823,6 +2047,7 @@ func (w *c13World) config(n *c13Node) ChannelArbitratorConfig {
 			return n.write("Switch.DeliverResolutionMsg", evs...)
 		},
 		Notifier: &c13Notifier{n: n},
+		Mempool:  w.mempoolWatcher(n),
 		IncubateOutputs: func(_ wire.OutPoint, out fn.Option[lnwallet.OutgoingHtlcResolution],
 			in fn.Option[lnwallet.IncomingHtlcResolution], _ uint32, _ fn.Option[int32], _ ...IncubateOption) error {
 
@@ -1945,9 +2170,26 @@ func (w *c13World) config(n *c13Node) ChannelArbitratorConfig {
 			defer n.leave()
 			w.checkOffered("FindOutgoingHTLCDeadline", h.HtlcIndex)
 			w.checkHash("FindOutgoingHTLCDeadline", h.RHash)
+			if w.scn.NoUpstream {
+				return fn.None[int32]()
+			}
+			// A forward: the expiry of the incoming HTLC it was forwarded from.
+			for k, ht := range w.scn.HTLCs {
+				if !ht.In && ht.Idx == h.HtlcIndex {
+					return fn.Some(int32(ht.Exp) + 20 + 2*int32(k))
+				}
+			}
 			return fn.None[int32]()
 		},
 	}
+}
+
+// mempoolWatcher is nil (an SPV backend) unless the scenario asks for a full node.
+func (w *c13World) mempoolWatcher(n *c13Node) chainntnfs.MempoolWatcher {
+	if !w.scn.Mempool {
+		return nil
+	}
+	return &c13Mempool{n: n}
 }
 
 func (w *c13World) incubate(j int, in bool) {
@@ -1959,26 +2201,138 @@ func (w *c13World) incubate(j int, in bool) {
 	w.nursery = append(w.nursery, c13Kid{j: j, in: in})
 }
 
-// c13RegistryImpl: no invoices; every received HTLC is a forward (the onion
-// processor says "not the exit hop").
+// c13RegistryImpl is the invoice registry. Its state (per received exit-hop HTLC:
+// accepted | settled | canceled) is durable: every change is one write
+// transaction of channel.db (a stop point), w.inv is only a mirror rebuilt at every
+// start. Replays answer the way lnd's registry does: a settled invoice settles
+// again with the same preimage, a canceled one fails again, an accepted hold
+// invoice stays undecided and the new subscriber is notified later.
 type c13RegistryImpl struct{ n *c13Node }
 
 var _ Registry = (*c13RegistryImpl)(nil)
 
-func (r *c13RegistryImpl) NotifyExitHopHtlc(lntypes.Hash, lnwire.MilliSatoshi, uint32, int32,
-	models.CircuitKey, chan<- interface{}, lnwire.CustomRecords,
-	invoices.Payload) (invoices.HtlcResolution, error) {
-
-	return nil, errors.New("c13: registry has no invoices")
+// invoiceOf finds the received HTLC a payment hash belongs to.
+func (w *c13World) invoiceOf(hash lntypes.Hash) (int, *c13HTLC) {
+	for j := range w.scn.HTLCs {
+		h := &w.scn.HTLCs[j]
+		if h.In && c13HashOfPre(h.preimage()) == hash {
+			return j, h
+		}
+	}
+	return -1, nil
 }
 
-func (r *c13RegistryImpl) HodlUnsubscribeAll(chan<- interface{}) {}
+func (r *c13RegistryImpl) NotifyExitHopHtlc(hash lntypes.Hash, amt lnwire.MilliSatoshi, expiry uint32, height int32,
+	key models.CircuitKey, hodl chan<- interface{}, _ lnwire.CustomRecords,
+	_ invoices.Payload) (invoices.HtlcResolution, error) {
 
-func (r *c13RegistryImpl) LookupInvoice(_ context.Context, h lntypes.Hash) (invoices.Invoice, error) {
+	n := r.n
+	w := n.w
+	n.enter()
+	w.checkHash("NotifyExitHopHtlc", hash)
+	w.checkReceived("NotifyExitHopHtlc", key.HtlcID)
+	j, h := w.invoiceOf(hash)
+	if h == nil || h.Inv == "" {
+		n.leave()
+		return invoices.NewFailResolution(key, height, invoices.ResultInvoiceNotFound), nil
+	}
+	if key.HtlcID != h.Idx || amt != lnwire.MilliSatoshi(10_000_000*(j+1)) || expiry != h.Exp {
+		w.anomaly(fmt.Sprintf("exit-hop-htlc-notified-with-foreign-details:%s(id=%d,amt=%d,expiry=%d)", h.name(), key.HtlcID, amt, expiry))
+	}
+	st := w.inv[h.Idx]
+	inv, idx, pre := h.Inv, h.Idx, h.preimage()
+	n.leave()
+	set := func(state string) error {
+		if err := n.write("InvoiceRegistry."+state, c13Event{K: "invoice", Idx: idx, Comment: state}); err != nil {
+			return err
+		}
+		n.enter()
+		w.inv[idx] = state
+		n.leave()
+		return nil
+	}
+	switch {
+	case inv == "canceled" || st == "canceled":
+		return invoices.NewFailResolution(key, height, invoices.ResultInvoiceAlreadyCanceled), nil
+	case st == "settled":
+		return invoices.NewSettleResolution(pre, key, height, invoices.ResultReplayToSettled), nil
+	case inv == "settle":
+		if err := set("settled"); err != nil {
+			return nil, err
+		}
+		return invoices.NewSettleResolution(pre, key, height, invoices.ResultSettled), nil
+	}
+	// A hold invoice: the HTLC is accepted and stays undecided until the user acts.
+	if st == "" {
+		if err := set("accepted"); err != nil {
+			return nil, err
+		}
+	}
+	if hodl != nil {
+		n.enter()
+		n.hodlSubs[idx] = append(n.hodlSubs[idx], hodl)
+		n.leave()
+	}
+	return nil, nil
+}
+
+func (r *c13RegistryImpl) HodlUnsubscribeAll(sub chan<- interface{}) {
+	n := r.n
+	n.enter()
+	defer n.leave()
+	for idx, subs := range n.hodlSubs {
+		var keep []chan<- interface{}
+		for _, s := range subs {
+			if s != sub {
+				keep = append(keep, s)
+			}
+		}
+		n.hodlSubs[idx] = keep
+	}
+}
+
+func (r *c13RegistryImpl) LookupInvoice(_ context.Context, hash lntypes.Hash) (invoices.Invoice, error) {
 	r.n.enter()
 	defer r.n.leave()
-	r.n.w.checkHash("LookupInvoice", h)
-	return invoices.Invoice{}, invoices.ErrInvoiceNotFound
+	w := r.n.w
+	w.checkHash("LookupInvoice", hash)
+	_, h := w.invoiceOf(hash)
+	if h == nil || h.Inv == "" {
+		return invoices.Invoice{}, invoices.ErrInvoiceNotFound
+	}
+	var inv invoices.Invoice
+	// The preimage of a hold invoice is only known once the user settled it.
+	if !strings.HasPrefix(h.Inv, "hodl") || w.inv[h.Idx] == "settled" {
+		p := h.preimage()
+		inv.Terms.PaymentPreimage = &p
+	}
+	return inv, nil
+}
+
+// userDecides is the user settling / canceling a hold invoice whose HTLC was
+// accepted: an RPC served by the node (one write transaction of channel.db), after
+// which the registry notifies the subscribers of that HTLC.
+func (n *c13Node) userDecides(idx uint64, state string, pre lntypes.Preimage) {
+	w := n.w
+	if err := n.write("InvoiceRegistry."+state+"(user)", c13Event{K: "invoice", Idx: idx, Comment: state}); err != nil {
+		return
+	}
+	n.enter()
+	w.inv[idx] = state
+	subs := append([]chan<- interface{}{}, n.hodlSubs[idx]...)
+	n.leave()
+	key := models.CircuitKey{ChanID: lnwire.NewShortChanIDFromInt(13), HtlcID: idx}
+	var res invoices.HtlcResolution
+	if state == "settled" {
+		res = invoices.NewSettleResolution(pre, key, 0, invoices.ResultSettled)
+	} else {
+		res = invoices.NewFailResolution(key, 0, invoices.ResultCanceled)
+	}
+	for _, s := range subs {
+		n.enter()
+		n.leave()
+		s <- res
+	}
 }
 
 func c13TypeName(r ContractResolver) string {
@@ -2109,6 +2463,8 @@ func (w *c13World) startNode() {
 		w: w, gen: w.gen,
 		spendRegs: map[wire.OutPoint][]*chainntnfs.SpendEvent{},
 		sweeps:    map[wire.OutPoint]*c13SweepReq{},
+		memSubs:   map[wire.OutPoint][]*c13MemSub{},
+		hodlSubs:  map[uint64][]chan<- interface{}{},
 		resolved:  make(chan struct{}),
 		closedMem: d.closed,
 		ident:     map[uint64]string{},
@@ -2119,6 +2475,9 @@ func (w *c13World) startNode() {
 	for _, ev := range d.events {
 		if ev.K == "incubate" {
 			w.incubate(int(ev.Idx), ev.Settle)
+		}
+		if ev.K == "invoice" {
+			w.inv[ev.Idx] = ev.Comment
 		}
 		if ev.K == "preimage" {
 			if b, err := hex.DecodeString(ev.Pre); err == nil {
@@ -2208,6 +2567,14 @@ func (w *c13World) startNode() {
 	}
 	n.log = log
 	n.arb = NewChannelArbitrator(cfg, htlcSets, log)
+	if n.mode == "open" {
+		n.chainArb = NewChainArbitrator(ChainArbitratorConfig{DisableChannel: func(wire.OutPoint) error {
+			n.enterAs("DisableChannel")
+			n.leave()
+			return nil
+		}}, nil)
+		n.chainArb.activeChannels[w.funding] = n.arb
+	}
 	go n.chainArbLoop()
 	w.logf("  node #%d starts at height %d: mode=%s state-on-disk=%s unresolved=%v", n.gen, w.height.Load(), n.mode, w.diskState(), w.snapshot())
 	beat := chainio.NewBeat(chainntnfs.BlockEpoch{Height: w.height.Load()})
@@ -2299,7 +2666,7 @@ func (w *c13World) blockStep() bool {
 	w.height.Store(h)
 	var late []lntypes.Preimage
 	for _, ht := range w.scn.HTLCs {
-		if ht.In && ht.Pre == "late" && ht.At == h {
+		if ht.In && (ht.Pre == "late" || ht.Pre == "late-lost") && ht.At == h {
 			p := ht.preimage()
 			w.knownPre[p.Hash()] = p
 			late = append(late, p)
@@ -2309,11 +2676,19 @@ func (w *c13World) blockStep() bool {
 	if justiceNow {
 		w.justice = true
 	}
+	if w.scn.Mempool {
+		// A full node sees the remote party's claims of the next block while they
+		// are still unconfirmed.
+		w.remoteClaims(h+1, h+1, true)
+	}
 	n := w.node
 	w.mu.Unlock()
 	w.obs.Blocks++
 	if n == nil || n.idle {
 		return true
+	}
+	if w.scn.Mempool && !w.settle() {
+		return false
 	}
 	// 2. Spends of watched outpoints and sweep results: one notification at a
 	// time, each followed by quiescence, so that the order in which resolvers act
@@ -2379,6 +2754,37 @@ func (w *c13World) blockStep() bool {
 			}
 		}
 	}
+	// The user decides on hold invoices whose HTLC the registry has accepted.
+	for _, ht := range w.scn.HTLCs {
+		if !ht.In || !strings.HasPrefix(ht.Inv, "hodl") || ht.At > h {
+			continue
+		}
+		w.mu.Lock()
+		st := w.inv[ht.Idx]
+		w.mu.Unlock()
+		if st != "accepted" {
+			continue
+		}
+		state := map[string]string{"hodl-settle": "settled", "hodl-cancel": "canceled"}[ht.Inv]
+		w.logf("  deliver: the user decides on the hold invoice of %s: %s", ht.name(), state)
+		go n.userDecides(ht.Idx, state, ht.preimage())
+		if !w.settle() {
+			return false
+		}
+	}
+	// The user asks for a force close (and keeps asking until it is under way).
+	if uc := w.scn.UserClose; uc > 0 && h >= uc && n.mode == "open" && n.chainArb != nil && w.diskState() == StateDefault.String() {
+		w.mu.Lock()
+		_, closedOnChain := w.spent[w.funding]
+		w.mu.Unlock()
+		if !closedOnChain {
+			w.logf("  deliver: the user requests a force close")
+			go func() { _, _ = n.chainArb.ForceCloseContract(w.funding) }()
+			if !w.settle() {
+				return false
+			}
+		}
+	}
 	if justiceNow {
 		w.mu.Lock()
 		for _, c := range n.breachSubs {
@@ -2422,6 +2828,9 @@ func (w *c13World) blockStep() bool {
 	w.mu.Lock()
 	w.sweeperBeat(h)
 	w.mu.Unlock()
+	if w.scn.Mempool && !w.settle() {
+		return false
+	}
 	return true
 }
 
